@@ -41,18 +41,24 @@ def overlay_for(patch_path, tree):
 
 
 def _one(args):
-    name, pid, root, expected = args
+    name, pid, root, expected, base, base_deferred, relevant = args
     import check
     tree = read_tree(root)
-    ov = overlay_for(os.path.join(RDIR, name, 'patch.diff'), tree)
     label = 'agent-refactor-' + name
+    txt = open(os.path.join(RDIR, name, 'patch.diff')).read()
+    touched = set(re.findall(r'^\+\+\+ b/(\S+)', txt, re.M))
+    if relevant is not None and not (touched & relevant):
+        return (label, 'silent', 'touches none of the files this property reads')
+    ov = overlay_for(os.path.join(RDIR, name, 'patch.diff'), tree)
     if ov is None:
         return (label, 'skipped', 'patch no longer applies to the current tree')
     known = {(k['property'], k['rule'], k['key']) for k in load_known().get('findings', [])}
     want = expected.get(name, {}).get(pid)
     try:
-        base = {(o.rule, o.key) for o in check.analyse(pid, 'quick', root=root).obs if not o.ok}
         run = check.analyse(pid, 'quick', overlay=ov, root=root)
+        newdef = [d for d in getattr(run, 'deferred', []) if d not in base_deferred]
+        if newdef:
+            raise AnalysisError(newdef[0])
     except AnalysisError as e:
         if want and want.startswith('analysis-error'):
             return (label, 'fail-closed', str(e)[:120])
@@ -80,5 +86,20 @@ def run(pid, root=None):
     names = sorted(n for n in os.listdir(RDIR) if os.path.isfile(os.path.join(RDIR, n, 'patch.diff')))
     if not names:
         return []
+    import check
+    b = check.analyse(pid, 'quick', root=root)
+    base = {(o.rule, o.key) for o in b.obs if not o.ok}
+    base_deferred = list(getattr(b, 'deferred', []))
+    # the files this property's rules look at: where its obligations sit, plus the files its statement is anchored in
+    relevant = {o.rel for o in b.obs if o.rel}
+    try:
+        for l in open(os.path.join(HERE, 'properties.jsonl')):
+            d = json.loads(l)
+            if d['id'] == pid:
+                relevant |= set(d['anchors'].get('files', []))
+    except OSError:
+        relevant = None
+    if relevant is not None and len(relevant) < 2:
+        relevant = None
     with multiprocessing.Pool(min(16, len(names))) as pool:
-        return pool.map(_one, [(n, pid, root, expected) for n in names])
+        return pool.map(_one, [(n, pid, root, expected, base, base_deferred, relevant) for n in names])
